@@ -29,7 +29,7 @@ GLOBALS = [
 ]
 PRELUDE = 'struct S1 { counter: atomic<u32>, data: array<u32> }\n@group(1) @binding(2) var tex2: texture_2d<f32>;\n'
 CONTEXTS = ['plain', 'if_accept', 'if_reject', 'switch_case', 'switch_default', 'loop_body', 'continuing', 'block', 'for_body',
-            'nested_if_in_loop', 'plain2', 'plain3', 'loop_body2']
+            'nested_if_in_loop', 'plain2', 'plain3', 'loop_body2', 'dead_else_of_if_true', 'dead_then_of_if_false']
 STAGE_ATTR = {0: ('@vertex', '-> @builtin(position) vec4<f32>', 'return vec4<f32>(0.0, 0.0, 0.0, 1.0);'),
               1: ('@fragment', '', ''), 2: ('@compute @workgroup_size(1)', '', '')}
 STAGE_BIT = {0: 1, 1: 2, 2: 4}
@@ -136,6 +136,8 @@ class Template:
   let k = r{e["slots"]["callr"].id} + 1u;
   {g("plain")} {g("plain2")} {g("plain3")}
   if (k == 1u) {{ {g("if_accept")} }} else {{ {g("if_reject")} }}
+  if (true) {{ }} else {{ {g("dead_else_of_if_true")} }}
+  if (false) {{ {g("dead_then_of_if_false")} }}
   switch k {{ case 1u: {{ {g("switch_case")} }} default: {{ {g("switch_default")} }} }}
   loop {{ {g("loop_body")} {g("loop_body2")} if (k > 2u) {{ break; }} if (k > 3u) {{ {g("nested_if_in_loop")} }} continuing {{ {g("continuing")} }} }}
   {{ {g("block")} }}
@@ -372,7 +374,7 @@ def run(ctx):
         'ShaderStages values are unions of VERTEX|FRAGMENT|COMPUTE (bits < 8)',
     ]
     ctx.bounds = {'helpers': '2 void + 2 value-returning (quick), 3+3 (thorough)', 'entries': '2 (quick) / 3 (thorough)',
-                  'globals': len(GLOBALS), 'nesting contexts': CONTEXTS, 'three-entry family': 'stages of 3 entry points symbolic (all 27 sequences), each calling a shared void / value helper or not', 'multi-use family': '3 globals; 5 / 3 / 2 references per function, each symbolic over the globals (one function per run)',
+                  'globals': len(GLOBALS), 'nesting contexts': CONTEXTS, 'three-entry family': 'stages of 3 entry points symbolic (all 27 sequences), each calling a shared void / value helper or not', 'multi-use family': '5 globals (3 bindings, a private variable, the push constant); 5 / 3 / 2 references per function, each symbolic over the globals (one function per run)',
                   'symbolic slots per run': '3-4 (quick), 5-6 (thorough)'}
     nh = 2 if quick else 3
     ne = 2 if quick else 3
@@ -546,7 +548,9 @@ def sequences(ctx, nh, ne, seen, low_use='u0'):
 
 MU_GLOBALS = [('a', '@group(0) @binding(0) var<uniform> a: vec4<f32>;', 'let t{n} = a.x;'),
               ('b', '@group(0) @binding(1) var<uniform> b: vec4<f32>;', 'let t{n} = b.y;'),
-              ('c', '@group(0) @binding(2) var<storage, read_write> c: array<u32, 4>;', 'c[{n}] = c[{n}] + 1u;')]
+              ('c', '@group(0) @binding(2) var<storage, read_write> c: array<u32, 4>;', 'c[{n}] = c[{n}] + 1u;'),
+              ('p', 'var<private> p: f32;', 'p = p + 1.0;'),                       # a module-scope variable that is not a resource
+              ('pc', 'var<push_constant> pc: vec4<f32>;', 'let t{n} = pc.x;')]
 MU_FUNCS = [('helper', None, 5), ('e0', 1, 3), ('e1', 2, 2)]          # name, stage, number of use sites; e0 calls helper, e1 does not
 
 
@@ -609,7 +613,7 @@ def multi_use(ctx, seen):
             if kind == 'panic':
                 raise Inconclusive(f'multi-use harness: stage walk panicked: {out}')
             got = {k: flag_bits(v) for k, v in out.entries}
-            bad = [(g, got.get(g, 0) != want[g]) for g in gl_h]
+            bad = [(g, got.get(g, 0) != want[g]) for g in gl_h if g != 'p']        # what is recorded for a non-resource variable is nobody's business
             m = ctx.check(pc, z3.Or([b for _, b in bad]))
             if m is None:
                 continue
@@ -621,8 +625,10 @@ def multi_use(ctx, seen):
             choice = {k: inv[model_value(m, t)] for k, t in terms.items()}
             wsrc = mu_render(choice)
             vis = real_visibility(ctx, wsrc)
-            exp = {g: model_value(m, want[g]) for g in gl_h}
-            rep = {g: vis.get(g) for g in gl_h} != exp
+            exp = {g: model_value(m, want[g]) for g in gl_h if g != 'p'}            # the private variable has no visibility to read back
+            if exp.get('pc') == 0:
+                exp['pc'] = STAGE_BIT[1] | STAGE_BIT[2]                             # unused push constant: all entry stages
+            rep = {g: vis.get(g) for g in exp} != exp
             ctx.report(key, f'stage sets {vis} differ from static use {exp} when {sym_fn} references {[choice[(sym_fn, i)] for i in range(len(choice))]}',
                        {'wgsl': wsrc, 'options': OPTS}, rep, {'real': vis, 'expected': exp})
         ctx.vacuity_witness('multi-use stage map reachable', res[0][0])
